@@ -102,6 +102,12 @@ theorem linesRef_spec (racc rest : Bytes) :
       | nil => exact absurd hs (splitLF_ne_nil t)
       | cons h r => simp [prependHead, Spec.consHead]
 
+/-! The guards `2 ≤ chunk` (here and in `readLine_lf/_last`) and `1 ≤ block` (`copy_exact`) are the conditions under
+which the model describes the code at all: with a smaller `fgets` buffer or an empty copy buffer the C++ loops do
+not terminate, `tools/props/c17.py translate()` refuses such a source, and the model functions take `chunk - 2` /
+`block - 1`.  The proofs therefore never need them; they are kept so that no statement is made about values for
+which the model does not transcribe the code. -/
+
 /-- **lines_spec**: for every NUL-free content and every `fgets` chunk size ≥ 2 (255 in the source), `lines()` is exactly
     the sequence obtained by splitting at LF and removing one CR before each LF — any line length, with
     or without a final newline, the empty file included. -/
@@ -211,17 +217,20 @@ theorem lines_join_lf (ls : List Bytes) (hne : ls ≠ []) (h : ∀ l ∈ ls, ∀
         congr 1
         simp [Spec.stripCR, hl]
 
-/-- **readLine_seq** (a line that ends in LF): the call returns `true`, leaves the line without its LF and
-    without one CR before it, and the stream just behind the LF -/
+/-- **readLine_lf** (a line that ends in LF): the call returns `true`, leaves the line without its LF and
+    without one CR before it, and the stream just behind the LF.  Only the line itself has to be NUL-free:
+    nothing behind the LF is looked at. -/
 theorem readLine_lf (chunk : Nat) (_h : 2 ≤ chunk) (pre post : Bytes) (e : Bool) (hpre : ∀ b ∈ pre, b ≠ 10)
-    (hz : Spec.NulFree (pre ++ 10 :: post)) :
+    (hz : Spec.NulFree pre) :
     readLine chunk ⟨pre ++ 10 :: post, e⟩ = ((Spec.stripCR pre, true), ⟨post, e⟩) := by
   unfold readLine
-  rw [readLineLoop_eq _ _ ⟨pre ++ 10 :: post, e⟩ hz, rlSpec_lf _ _ _ _ hpre]
+  have htw : (pre ++ 10 :: post).takeWhile (· != 10) = pre := by
+    rw [takeWhile_append_nolf _ _ hpre]; simp
+  rw [readLineLoop_eq_toLF _ _ ⟨pre ++ 10 :: post, e⟩ (by rw [htw]; exact hz), rlSpec_lf _ _ _ _ hpre]
   simp only [List.append_nil]
   rw [← stripCR_reverse, List.reverse_reverse]
 
-/-- **readLine_seq** (the bytes after the last LF): the call returns `false`, leaves those bytes in the
+/-- **readLine_last** (the bytes after the last LF): the call returns `false`, leaves those bytes in the
     string, and the end-of-file indicator is set — so `while (!end())` loops stop after it -/
 theorem readLine_last (chunk : Nat) (_h : 2 ≤ chunk) (rest : Bytes) (e : Bool) (hrest : ∀ b ∈ rest, b ≠ 10)
     (hz : Spec.NulFree rest) :
@@ -627,15 +636,17 @@ theorem store_refines (hist : List Spec.Tx) (d : Disk) (p : Nat) :
 /-! ## reading back -/
 
 /-- **read_back**: `content()`, `size()`, `firstBytes(n)`, `lines()` and `text()` of an existing file are
-    functions of its byte string alone: all of it, its length, its first `n` bytes -/
+    functions of its byte string alone: all of it (files below 2 GiB: `content()` casts `size()` to `int`), its
+    length, its first `n` bytes -/
 theorem read_back (d : Disk) (p : Nat) (c : Bytes) (h : d p = some c) :
-    content d p = c ∧ size d p = c.length ∧ (∀ n, firstBytes d p n = c.take n) ∧
+    (c.length < 2147483648 → content d p = c) ∧ size d p = c.length ∧ (∀ n, firstBytes d p n = c.take n) ∧
     (Spec.NulFree c → linesOf d p = Spec.lines c) ∧ textOf d p = text c := by
   have hf : ∀ n, firstBytes d p n = c.take n := by
     intro n
     simp [firstBytes, openH_read d p false c h, hread, smRead, fread]
   refine ⟨?_, ?_, hf, lines_of_file d p c h, ?_⟩
-  · simp [content, h, hf]
+  · intro _   -- `content()` passes `(int)size()`: the model drops the cast, exact below 2 GiB only
+    simp [content, h, hf]
   · simp [size, h]
   · simp [textOf, openH_read d p true c h]
 
@@ -662,8 +673,9 @@ theorem read_seq (ks : List Nat) (h : Handle) (hr : h.sm.canRead = true) :
 
 /-- **written_is_read** (the headline): whatever is written with `File(path).put`, `TextFile(path).put/write`
     or through a freshly opened writer is what `content()` returns afterwards, and `size()` is its length —
-    for every byte string, the empty one included -/
-theorem written_is_read (d : Disk) (p : Nat) (bs : Bytes) (t : Bool) (chunks : List Bytes) :
+    for every byte string below 2 GiB (`content()` casts the size to `int`), the empty one included -/
+theorem written_is_read (d : Disk) (p : Nat) (bs : Bytes) (t : Bool) (chunks : List Bytes)
+    (hb : bs.length < 2147483648) (hc : chunks.flatten.length < 2147483648) :
     content (runTx d p (.put bs)) p = bs ∧ size (runTx d p (.put bs)) p = bs.length ∧
     content (runTx d p (.tput bs)) p = bs ∧ size (runTx d p (.tput bs)) p = bs.length ∧
     content (runTx d p (.session t .write chunks)) p = chunks.flatten ∧
@@ -672,8 +684,8 @@ theorem written_is_read (d : Disk) (p : Nat) (bs : Bytes) (t : Bool) (chunks : L
   have b := (runTx_store d p (.tput bs)).1
   have c := (runTx_store d p (.session t .write chunks)).1
   simp only [Spec.store] at a b c
-  exact ⟨(read_back _ p _ a).1, (read_back _ p _ a).2.1, (read_back _ p _ b).1, (read_back _ p _ b).2.1,
-    (read_back _ p _ c).1, (read_back _ p _ c).2.1⟩
+  exact ⟨(read_back _ p _ a).1 hb, (read_back _ p _ a).2.1, (read_back _ p _ b).1 hb, (read_back _ p _ b).2.1,
+    (read_back _ p _ c).1 hc, (read_back _ p _ c).2.1⟩
 
 /-- **write_lines_read_lines**: text lines (NUL-free, without LF) written in one `TextFile(path).write` with CR LF
     between them come back from `TextFile(path).lines()` exactly, for any number and length of lines -/
@@ -752,7 +764,8 @@ theorem obj_close_erases (o : Obj) :
     from the path's current bytes: `size()` is their number, `content()` all of them, `firstBytes(n)` the first
     `n`, `lines()` and `text()` those of a fresh `TextFile` -/
 theorem obj_after_close (d : Disk) (o : Obj) (c : Bytes) (h : d o.path = some c) :
-    (o.close.size d).1 = c.length ∧ (o.close.content d).1 = c ∧ (∀ n, (o.close.firstBytes d n).1 = c.take n) ∧
+    (o.close.size d).1 = c.length ∧ (c.length < 2147483648 → (o.close.content d).1 = c) ∧
+    (∀ n, (o.close.firstBytes d n).1 = c.take n) ∧
     (Spec.NulFree c → (o.close.lines d).1 = Spec.lines c) ∧
     (c.length < 2147483648 → (o.close.text d).1 = text c) := by
   rw [obj_close_erases]
@@ -764,7 +777,8 @@ theorem obj_after_close (d : Disk) (o : Obj) (c : Bytes) (h : d o.path = some c)
     intro info n
     simp [Obj.firstBytes, Obj.lazyOpen, openH_read d o.path false c h, hread, smRead, fread]
   refine ⟨by rw [hsz], ?_, fun n => hfb .empty n, ?_, ?_⟩
-  · simp only [Obj.content, hsz, Int.toNat_natCast]
+  · intro _
+    simp only [Obj.content, hsz, Int.toNat_natCast]
     rw [hfb]; exact List.take_length
   · intro hz
     have := lines_spec readLineChunk (by decide) c hz
@@ -835,27 +849,166 @@ theorem obj_history (ops : List QOp) (d : Disk) (o : Obj) (hd : Handle) (h : o.f
         simp [Obj.touch, Obj.ensureInfo]; split <;> simp
       simpa [runQ, writesOf, hp.1, hp.2] using this
 
-/-- **obj_write_query_close** (the clause a cached `stat` could break): one object opened for WRITE, any sequence
-    of writes and stat-backed queries, `close()`; then `size()` of the same object is the number of bytes
-    written and `content()` is exactly those bytes — a query made while the file was open poisons nothing -/
-theorem obj_write_query_close (d : Disk) (p : Nat) (t : Bool) (ops : List QOp) :
-    let o1 := (Obj.new p t).open d .write
+/-- **obj_write_query_close** (the clause a cached `stat` could break): one object opened for WRITE or APPEND, any
+    sequence of writes and stat-backed queries, `close()`; then `size()` of the same object is the number of
+    bytes the file now holds — what was there before for APPEND, nothing for WRITE, then everything written —
+    and `content()` is exactly those bytes: a query made while the file was open poisons nothing -/
+theorem obj_write_query_close (d : Disk) (p : Nat) (t : Bool) (m : OpenMode) (hm : m = .write ∨ m = .append)
+    (ops : List QOp) :
+    let o1 := (Obj.new p t).open d m
     let r := ops.foldl runQ (o1.2.1, o1.2.2)
-    (r.2.close.size r.1).1 = (writesOf ops).flatten.length ∧ (r.2.close.content r.1).1 = (writesOf ops).flatten := by
-  intro o1 r
-  have ho : o1 = (true, d.set p (some []),
-      { path := p, isText := t, file := some { path := p, isText := t, mode := .write, sm := smWrite, all := [], rs := ⟨[], false⟩, pos := 0 }, info := .empty }) := by
-    simp [o1, Obj.open, Obj.new, openH_write]
-  have hh := obj_history ops o1.2.1 o1.2.2 _ (by rw [ho])
-  have hst := (runTx_store d p (.session t .write (writesOf ops))).1
-  simp only [runTx, openH_write, Spec.store] at hst
-  have hdisk : r.1 p = some (writesOf ops).flatten := by
-    have : r.1 = _ := hh.1
-    rw [this, ho]; exact hst
-  have hpath : r.2.close.path = p := by
-    have : r.2.path = _ := hh.2.2.1
-    simp [Obj.close, this, ho]
-  have := obj_after_close r.1 r.2 (writesOf ops).flatten (by rw [show r.2.path = p from by simpa [Obj.close] using hpath]; exact hdisk)
+    let c := (if m = .append then (d p).getD [] else []) ++ (writesOf ops).flatten
+    (r.2.close.size r.1).1 = c.length ∧ (c.length < 2147483648 → (r.2.close.content r.1).1 = c) := by
+  intro o1 r c
+  have key : r.1 p = some c ∧ r.2.path = p := by
+    rcases hm with rfl | rfl
+    · have ho : o1 = (true, d.set p (some []),
+          { path := p, isText := t, file := some { path := p, isText := t, mode := .write, sm := smWrite, all := [], rs := ⟨[], false⟩, pos := 0 }, info := .empty }) := by
+        simp [o1, Obj.open, Obj.new, openH_write]
+      have hh := obj_history ops o1.2.1 o1.2.2 _ (by rw [ho])
+      have hst := (runTx_store d p (.session t .write (writesOf ops))).1
+      simp only [runTx, openH_write, Spec.store] at hst
+      refine ⟨?_, ?_⟩
+      · have : r.1 = _ := hh.1
+        rw [this, ho]
+        simpa [c] using hst
+      · have : r.2.path = _ := hh.2.2.1
+        simp [this, ho]
+    · obtain ⟨h, d', hop, hpath, hsm, hd', -⟩ := openH_append d p t
+      have ho : o1 = (true, d', { path := p, isText := t, file := some h, info := .empty }) := by
+        simp [o1, Obj.open, Obj.new, hop]
+      have hh := obj_history ops o1.2.1 o1.2.2 h (by rw [ho])
+      have hw := (writeAll_append (writesOf ops) d' h _ (by rw [hsm]; rfl) (by rw [hsm]; rfl) (by rw [hpath]; exact hd')).1
+      rw [hpath] at hw
+      refine ⟨?_, ?_⟩
+      · have : r.1 = _ := hh.1
+        rw [this, ho]
+        simpa [c] using hw
+      · have : r.2.path = _ := hh.2.2.1
+        simp [this, ho]
+  have := obj_after_close r.1 r.2 c (by rw [key.2]; exact key.1)
   exact ⟨this.1, this.2.1⟩
+
+/-- `TextFile::write/put/operator<<` (`m = WRITE`) and `append` (`m = APPEND`) on an object that was never opened open
+    it in that mode and write: exactly `open(m)` followed by a write -/
+theorem twrite_lazy (d : Disk) (p : Nat) (m : OpenMode) (hm : m = .write ∨ m = .append) (bs : Bytes) :
+    ((Obj.new p true).twrite d m bs).2 =
+      runQ (((Obj.new p true).open d m).2.1, ((Obj.new p true).open d m).2.2) (.write bs) := by
+  rcases hm with rfl | rfl
+  · simp [Obj.twrite, Obj.lazyOpen, Obj.new, Obj.open, openH_write, runQ]
+  · obtain ⟨h, d', hop, -, -, -, -⟩ := openH_append d p true
+    simp [Obj.twrite, Obj.lazyOpen, Obj.new, Obj.open, hop, runQ]
+
+/-- `File::put` on an object that was never opened: exactly `open(WRITE)` followed by a write -/
+theorem put_lazy (d : Disk) (p : Nat) (bs : Bytes) :
+    ((Obj.new p false).put d bs).2 =
+      runQ (((Obj.new p false).open d .write).2.1, ((Obj.new p false).open d .write).2.2) (.write bs) := by
+  simp [Obj.put, Obj.lazyOpen, Obj.new, Obj.open, openH_write, runQ, Obj.write]
+
+/-- **obj_lazy_write_query_close**: the lazily opening writers — `TextFile::write/put/<<` (replace) and
+    `TextFile::append` (extend) on an object that is not open, `File::put` likewise — followed by any writes and
+    queries and `close()`: the same object then reports the old bytes (append only), then everything written -/
+theorem obj_lazy_write_query_close (d : Disk) (p : Nat) (m : OpenMode) (hm : m = .write ∨ m = .append)
+    (bs : Bytes) (ops : List QOp) :
+    (let r := ops.foldl runQ ((Obj.new p true).twrite d m bs).2
+     let c := (if m = .append then (d p).getD [] else []) ++ bs ++ (writesOf ops).flatten
+     (r.2.close.size r.1).1 = c.length ∧ (c.length < 2147483648 → (r.2.close.content r.1).1 = c)) ∧
+    (let r := ops.foldl runQ ((Obj.new p false).put d bs).2
+     let c := bs ++ (writesOf ops).flatten
+     (r.2.close.size r.1).1 = c.length ∧ (c.length < 2147483648 → (r.2.close.content r.1).1 = c)) := by
+  constructor
+  · have := obj_write_query_close d p true m hm (.write bs :: ops)
+    simp only [List.foldl_cons, writesOf, List.flatten_cons, ← List.append_assoc] at this
+    rw [twrite_lazy d p m hm bs]
+    exact this
+  · have := obj_write_query_close d p false .write (Or.inl rfl) (.write bs :: ops)
+    simp only [List.foldl_cons, writesOf, List.flatten_cons, if_neg (by decide : ¬ OpenMode.write = OpenMode.append),
+      List.nil_append] at this
+    rw [put_lazy d p bs]
+    exact this
+
+/-! ## end to end: written, then read -/
+
+/-- **history_read_back**: after *any* history of writers on a path, if the reference store says the file holds `c`,
+    then a fresh `File(path)` returns `c` from `content()` (below 2 GiB), `c.length` from `size()`, `c.take n` from
+    `firstBytes(n)`, and `TextFile(path)` the lines and the text of `c` -/
+theorem history_read_back (hist : List Spec.Tx) (d : Disk) (p : Nat) (c : Bytes)
+    (h : hist.foldl Spec.store (d p) = some c) :
+    let d' := hist.foldl (fun d tx => runTx d p tx) d
+    (c.length < 2147483648 → content d' p = c) ∧ size d' p = c.length ∧ (∀ n, firstBytes d' p n = c.take n) ∧
+    (Spec.NulFree c → linesOf d' p = Spec.lines c) ∧ textOf d' p = text c := by
+  intro d'
+  exact read_back d' p c (by show (hist.foldl (fun d tx => runTx d p tx) d) p = some c; rw [(store_refines hist d p).1]; exact h)
+
+/-- **write_then_text**: a string without a byte-order-mark prefix written with `TextFile(path).put/write` is what
+    `TextFile(path).text()` returns afterwards -/
+theorem write_then_text (d : Disk) (p : Nat) (bs : Bytes) (hlen : bs.length < 2147483648)
+    (h1 : ¬ [0xFF, 0xFE] <+: bs) (h2 : ¬ [0xFE, 0xFF] <+: bs) (h3 : ¬ [0xEF, 0xBB, 0xBF] <+: bs) :
+    textOf (runTx d p (.tput bs)) p = some bs := by
+  have hst := (runTx_store d p (.tput bs)).1
+  simp only [Spec.store] at hst
+  rw [(read_back _ p bs hst).2.2.2.2]
+  exact text_utf8 bs hlen h1 h2 h3
+
+/-- **read_seq_open**: successive `read(p, k)` calls on a `File` just opened for reading return consecutive pieces of
+    the file's bytes: together the first `Σk` -/
+theorem read_seq_open (d : Disk) (p : Nat) (t : Bool) (c : Bytes) (hc : d p = some c) (ks : List Nat) :
+    ∃ h, openH d p t .read = (some h, d) ∧ (readAll h ks).flatten = c.take ks.sum := by
+  refine ⟨_, openH_read d p t c hc, ?_⟩
+  exact read_seq ks _ rfl
+
+/-! ## what the other stream operators hand to `fwrite` -/
+
+/-- `<< (const char*)`: a NUL-free C string is written whole; otherwise the bytes before the first NUL -/
+theorem cstr_spec (a b : Bytes) (ha : ∀ x ∈ a, x ≠ 0) : cstr a = a ∧ cstr (a ++ 0 :: b) = a := by
+  constructor
+  · exact takeWhile_nulfree a ha
+  · unfold cstr
+    induction a with
+    | nil => simp
+    | cons x t ih =>
+      have hx : x ≠ 0 := ha x (by simp)
+      simp only [List.cons_append, List.takeWhile_cons, bne_iff_ne, ne_eq, hx, not_false_eq_true, if_true]
+      rw [ih (fun y hy => ha y (by simp [hy]))]
+
+/-- value of a string of decimal digits -/
+def decVal (l : Bytes) : Nat := l.foldl (fun a b => a * 10 + (b.toNat - 48)) 0
+
+/-- `TextFile << int`: the digits written are decimal digits whose value is the number; a minus sign first for
+    negative numbers -/
+theorem decimal_spec (n : Nat) (i : Int) :
+    (decVal (decDigits n) = n ∧ ∀ b ∈ decDigits n, 48 ≤ b.toNat ∧ b.toNat ≤ 57) ∧
+    (0 ≤ i → decimal i = decDigits i.toNat) ∧ (i < 0 → decimal i = 45 :: decDigits i.natAbs) := by
+  refine ⟨?_, fun h => by simp [decimal, Int.not_lt.mpr h], fun h => by simp [decimal, h]⟩
+  induction n using Nat.strongRecOn with
+  | _ n ih =>
+    rw [decDigits]
+    split
+    · rename_i h
+      simp only [decVal, List.foldl_cons, List.foldl_nil, List.mem_singleton, forall_eq, UInt8.toNat_ofNat']
+      omega
+    · rename_i h
+      have ih' := ih (n / 10) (by omega)
+      have hd : (UInt8.ofNat (48 + n % 10)).toNat = 48 + n % 10 := by rw [UInt8.toNat_ofNat']; omega
+      refine ⟨?_, ?_⟩
+      · have e := ih'.1
+        unfold decVal at e ⊢
+        rw [List.foldl_append, e]
+        simp only [List.foldl_cons, List.foldl_nil, hd]
+        omega
+      · intro b hb
+        rcases List.mem_append.mp hb with hb | hb
+        · exact ih'.2 b hb
+        · simp only [List.mem_singleton] at hb
+          rw [hb, hd]; omega
+
+/-- `File << int` (native byte order): four bytes, least significant first, of the value mod 2³² -/
+theorem le32_spec (n : Nat) :
+    (le32 n).length = 4 ∧
+    (le32 n).foldr (fun b a => b.toNat + 256 * a) 0 = n % 4294967296 := by
+  constructor
+  · rfl
+  · simp only [le32, List.foldr_cons, List.foldr_nil, UInt8.toNat_ofNat', Nat.shiftRight_eq_div_pow]
+    omega
 
 end C17
